@@ -39,6 +39,8 @@ def _tuples(maxn):
 def _restype(env, eng):
     # type of the model operand that ends up on the left of the arithmetic (first operand), PUBO for labels/dicts
     vs = env["variables"]
+    if not isinstance(vs, tuple):          # *key: labels only
+        return "fresh:model:PUBO"
     if vs and hasattr(vs[0], "cls"):
         return "fresh:model:" + vs[0].cls.name
     return "fresh:model:PUBO"
@@ -46,11 +48,15 @@ def _restype(env, eng):
 
 for name, f in (("AND", "andf"), ("OR", "orf"), ("XOR", "xorf")):
     contract(M + name, props=["C07", "C06", "C19"],
-             instances=_tuples(3),
+             # AND is also verified for `AND(*key)`: any number of label operands given as a symbolic key (used by the
+             # special forms of PCBO.add_constraint_le_zero); its loop is peeled once because P starts as the int 1
+             instances=_tuples(3) + ([{"variables": "labelkey"}] if name == "AND" else []),
              requires=["opsvalid(variables)", "all01(variables)"],
              returns=_restype,
              ensures=["bden(result) == %s(variables)" % f, "wf(result)", "isfresh(result)"],
              decreases="len(variables)",
+             loops={1: {"peel": True, "invariant": "bden(P) == andf(visited) and wf(P) and isfresh(P) and typeis(P, 'PUBO')"}}
+             if name == "AND" else {},
              note="arities 0..3 with mixed operand kinds; the recursive call is used by contract")
 
 for name, f in (("NAND", "andf"), ("NOR", "orf"), ("XNOR", "xorf")):
